@@ -3,7 +3,7 @@ Definition Pgen : lparams :=
   Build_lparams Gen_lifecycle.close_checks_closed_first Gen_lifecycle.close_sets_closed_before_io Gen_lifecycle.close_cleanup_in_finally
                 Gen_lifecycle.close_swallows_eof Gen_lifecycle.cleanup_hook_once_guard Gen_lifecycle.cleanup_clears_in_finally
                 Gen_lifecycle.serve_read_eof_closes
-                Gen_lifecycle.serve_dispatch_eof_closes Gen_lifecycle.serve_all_finally_closes.
+                Gen_lifecycle.serve_dispatch_eof_closes Gen_lifecycle.serve_all_finally_closes Gen_lifecycle.handle_close_guarded.
 Lemma tie_core : core_ok Pgen = true.
 Proof. reflexivity. Qed.
 Lemma tie_entry_points : Gen_lifecycle.handle_close_is_cleanup = true /\ Gen_lifecycle.cleanup_default_anyway = true
